@@ -6,7 +6,7 @@ CONSTANTS
   MaxErr = 2
   MaxMut = 2
   MaxFault = 2
-  MaxEnv = 8
+  MaxEnv = 7
 INIT Init
 NEXT Next
 INVARIANTS PropertyHolds Converged CacheIsView
